@@ -468,6 +468,7 @@ theorem step_mono (w : World) (ev : Ev) : Mono w.conn (stepW w ev).1.conn := by
   | drop g => exact Mono.of_eq (close_flags _ _)
   | throw g e => exact throw_mono _ _ _
   | setDisabled b => exact Mono.refl _
+  | removeNs n => exact Mono.refl _
 
 theorem run_mono : ∀ (evs : List Ev) (w : World), Mono w.conn (runW w evs).1.conn := by
   intro evs
@@ -1109,6 +1110,7 @@ theorem step_res (w : World) (hg : ∀ j, GoodGen (w.gens j)) (ev : Ev) (ha : Ca
     have h := throwAt_res w.conn (w.gens g) e
     exact ⟨h.1, upd _ _ h.2⟩
   | setDisabled b => exact ⟨trivial, hg⟩
+  | removeNs n => exact ⟨trivial, hg⟩
 
 theorem run_res : ∀ (evs : List Ev) (w : World), (∀ j, GoodGen (w.gens j)) → (∀ ev ∈ evs, CallOk ev) →
     ∀ p ∈ evs.zip (runW w evs).2, ResOk (thrown p.1) p.2 := by
@@ -1214,6 +1216,7 @@ theorem hinv_step {w : World} (ev : Ev) (h : HInv w) (ha : Allowed ev) : HInv (s
     have hb : b = false := ha
     subst hb
     exact ⟨h.owned, rfl, h.good, h.beyond⟩
+  | removeNs n => exact ⟨h.owned, h.enabled, h.good, h.beyond⟩
 
 theorem hinv_run : ∀ (evs : List Ev) {w : World}, HInv w → (∀ ev ∈ evs, Allowed ev) → HInv (runW w evs).1 := by
   intro evs
@@ -1778,6 +1781,7 @@ theorem steady_step {u : Option Bool} {d : Bool} {w : World} (ev : Ev) (h : Stea
     have hb : b = d := ha
     subst hb
     exact ⟨rfl, h.ff, h.pt, h.calls, ⟨h.inv.uniq, h.inv.below, h.inv.nonempty⟩⟩
+  | removeNs n => exact ⟨h.dis, h.ff, h.pt, h.calls, ⟨h.inv.uniq, h.inv.below, h.inv.nonempty⟩⟩
 
 theorem steady_run {u : Option Bool} {d : Bool} : ∀ (evs : List Ev) {w : World}, Steady u d w →
     (∀ ev ∈ evs, SteadyEv d ev) → Steady u d (runW w evs).1 := by
@@ -2066,6 +2070,7 @@ theorem pt_step {w : World} (ev : Ev) (h : PT w) : PT (stepW w ev).1 := by
     · exact absurd hp (handleErr_notPulling _ _ _ _ _ _ _ _ _)
     · cases hp
   | setDisabled b => exact h
+  | removeNs n => exact h
 
 theorem pt_run : ∀ (evs : List Ev) {w : World}, PT w → PT (runW w evs).1 := by
   intro evs
@@ -2711,8 +2716,21 @@ theorem iinv_update {w : World} {gh gh' : Ghost} (hi : IInv w gh) (g : Nat) (c' 
     · obtain ⟨_, _, _, h4, h5⟩ := hsame j e
       rw [h4, h5]; exact hi.beyondG j hj
 
-theorem iinv_step {w : World} {gh : Ghost} (ev : Ev) (hi : IInv w gh) (ha : Allowed ev) :
+/-- events of the interleaving theorem: as `Allowed`, and no namespace is removed under a running enumeration -/
+def AllowedI (ev : Ev) : Prop :=
+  match ev with
+  | .removeNs _ => False
+  | ev => Allowed ev
+
+instance (ev : Ev) : Decidable (AllowedI ev) := by
+  cases ev <;> simp only [AllowedI] <;> infer_instance
+
+theorem AllowedI.allowed {ev : Ev} (h : AllowedI ev) : Allowed ev := by
+  cases ev <;> simp only [AllowedI] at h <;> first | exact h | exact h.elim
+
+theorem iinv_step {w : World} {gh : Ghost} (ev : Ev) (hi : IInv w gh) (hai : AllowedI ev) :
     IInv (stepW w ev).1 (ghostStep w gh ev) := by
+  have ha : Allowed ev := hai.allowed
   have hH := hinv_step ev hi.h ha
   have hpt := pt_step ev hi.pt
   cases ev with
@@ -2769,6 +2787,7 @@ theorem iinv_step {w : World} {gh : Ghost} (ev : Ev) (hi : IInv w gh) (ha : Allo
     have hb : b = false := ha
     subst hb
     exact ⟨hH, ⟨hi.inv.uniq, hi.inv.below, hi.inv.nonempty⟩, hpt, hi.ok, hi.expok, hi.distinct, hi.beyondG⟩
+  | removeNs n => exact hai.elim
   | call a =>
     have notheld : ∀ j i, holds (w.gens j) i → j ≠ w.n := by
       intro j i hj e; subst e
@@ -2826,7 +2845,7 @@ theorem iinv_step {w : World} {gh : Ghost} (ev : Ev) (hi : IInv w gh) (ha : Allo
             exact hi.distinct j j' i hj hj'
       · simp only [ghostStep]; exact hi.beyondG j (by simp only [] at hj; omega)
 
-theorem iinv_run : ∀ (evs : List Ev) {w : World} {gh : Ghost}, IInv w gh → (∀ ev ∈ evs, Allowed ev) →
+theorem iinv_run : ∀ (evs : List Ev) {w : World} {gh : Ghost}, IInv w gh → (∀ ev ∈ evs, AllowedI ev) →
     IInv (runG w gh evs).1 (runG w gh evs).2 := by
   intro evs
   induction evs with
